@@ -481,3 +481,31 @@ def c34(ctx):
     if drift:
         ctx.notes.append("SPEC-DRIFT (advisory): handlers refusing streams the spec allows them to take: %s" % sorted(set(drift)))
         vlib.log("SPEC-DRIFT property=C34: some handlers are stricter than the spec (advisory): %s" % sorted(set(drift)))
+
+
+def c35(ctx):
+    ctx.assumptions = ["regexes from a small fixed family (^a, b$, ^s); controllers are asked through HandleDirective with a fake directive instance and their resolvers are run against a fake handler"]
+    ctx.rule = ("cases = registration (ordered prefix lists of 0-2 prefixes incl. overlapping ones, strip flag, regex, explicit list, server-id regex) x request (service id / path, server id) "
+                "for RpcServiceController, InvokerController, HTTPHandlerController and MatchServeMuxPattern; non-trivial = cases with at least one filter")
+    n = 2500 if ctx.tier == "quick" else 10 ** 9
+
+    def select(cases):
+        return seeded_sample(ctx, cases, lambda c: c["kind"] != "rpcsvc", n)
+
+    def judge(c, o):
+        if o.get("panic"):
+            return ("panic:" + c["kind"], o["panic"])
+        tag = "%s:%s" % (c["kind"], "strip" if c["strip"] else "nostrip")
+        if o.get("answers") == "no-value":
+            return (tag + ":no-value", "registration answered the lookup but resolved no value: %s" % c)
+        if o["answers"] != c["answers"]:
+            return ("%s:%s" % (tag, "answers-foreign" if o["answers"] else "refuses-matching"),
+                    "registration pl=%s re=%s list=%s sre=%s %s lookup id=%r srv=%r, spec says %s" % (c["pl"], c["re"], c["list"], c["sre"], "answers" if o["answers"] else "refuses", c["id"], c["srv"], c["answers"]))
+        if c["seenDemanded"]:
+            if not o["invoked"] or o["seen"] != c["seen"]:
+                return (tag + ":strip", "with prefixes %s the handler saw %r for request %r, spec says %r" % (c["pl"], o["seen"] if o["invoked"] else None, c["id"], c["seen"]))
+        elif c["answers"] and c["kind"] in ("rpcsvc", "http") and not c["strip"] and o["invoked"] and o["seen"] != c["id"]:
+            return (tag + ":altered", "stripping is off but the handler saw %r for request %r" % (o["seen"], c["id"]))
+        return None
+
+    run_table(ctx, "Lookup", "lookup", judge, select=select, nontrivial=lambda c, o: bool(c["pl"]) or c["re"] != "none" or bool(c["list"]) or c["sre"] != "none", timeout=3000)
